@@ -287,11 +287,14 @@ fn to_char_array(args: &[ColumnarValue]) -> Result<ColumnarValue> {
 
     let result = builder.finish();
     match args[0] {
-        ColumnarValue::Scalar(_) => {
+        // The format argument is an array, so there is one result per row even
+        // when the date/time value is a constant: only a single row can be
+        // returned as a scalar.
+        ColumnarValue::Scalar(_) if result.len() == 1 => {
             let val = result.is_valid(0).then(|| result.value(0).to_string());
             Ok(ColumnarValue::Scalar(ScalarValue::Utf8(val)))
         }
-        ColumnarValue::Array(_) => Ok(ColumnarValue::Array(Arc::new(result) as ArrayRef)),
+        _ => Ok(ColumnarValue::Array(Arc::new(result) as ArrayRef)),
     }
 }
 
